@@ -9,6 +9,7 @@ import (
 	"github.com/csgura/fp"
 	"github.com/csgura/fp/future"
 	"github.com/csgura/fp/iterator"
+	"github.com/csgura/fp/list"
 	"github.com/csgura/fp/seq"
 	"verif/harness/sim"
 )
@@ -256,7 +257,7 @@ func (c *c06) gen(depth int, budget *int) *fx {
 		n.tag = fmt.Sprintf("m4%d", n.id)
 		n.kids = []*fx{kid(), kid(), kid(), kid()}
 	case opSeq:
-		n.k = r.Choose(9, "seqk")
+		n.k = r.Choose(11, "seqk")
 		nk := r.Choose(5, "seqn")
 		for i := 0; i < nk; i++ {
 			n.kids = append(n.kids, kid())
@@ -960,8 +961,18 @@ func (c *c06) build0(n *fx) fp.Future[int] {
 			return future.Map(future.FlatMapTraverseSeq(future.Successful(fp.Seq[int](idx)), fn, ctx...), hs, ctx...)
 		case 7:
 			return future.Map(future.FlatMapTraverseSlice(future.Successful(idx), fn, ctx...), func(s []int) int { return hashSeq(s) }, ctx...)
-		default:
+		case 8:
 			ff := iterator.FoldFuture(iterator.FromSlice(idx), seq.Empty[int](), func(acc fp.Seq[int], i int) fp.Future[fp.Seq[int]] {
+				return future.Map(fn(i), acc.Add, ctx...)
+			}, ctx...)
+			return future.Map(ff, hs, ctx...)
+		case 9:
+			ff := seq.FoldFuture(fp.Seq[int](idx), seq.Empty[int](), func(acc fp.Seq[int], i int) fp.Future[fp.Seq[int]] {
+				return future.Map(fn(i), acc.Add, ctx...)
+			}, ctx...)
+			return future.Map(ff, hs, ctx...)
+		default:
+			ff := list.FoldFuture(list.Of(idx...), seq.Empty[int](), func(acc fp.Seq[int], i int) fp.Future[fp.Seq[int]] {
 				return future.Map(fn(i), acc.Add, ctx...)
 			}, ctx...)
 			return future.Map(ff, hs, ctx...)
